@@ -457,7 +457,7 @@ theorem adds_forStartOp : Adds c (c.cE + c.cF) forStartOp := by
       Tr.modify fun s => { s with endLabels := s!"_e{s.forCounter}" :: s.endLabels, fors := s!"_f{s.forCounter}" :: s.fors, forCounter := s.forCounter + 1 }
       let s ← Tr.get
       let l ← currentFor
-      addLine (.raw ("set \"" ++ currentForVar s ++ "=\""))
+      addLine (.set (currentForVar s) "")
       addLine (.clabel l) : BM Unit) := by
     refine adds_bind c ?_ (fun _ => adds_bind0 c (adds_get c) (fun _ => adds_bind0 c (adds_currentFor c) (fun _ =>
       adds_bind0 c (adds_addLine0 c _ rfl) (fun _ => adds_addLine0 c _ rfl))))
@@ -475,7 +475,7 @@ theorem adds_forIncrementStartOp : Adds c c.d forIncrementStartOp := by
 theorem adds_forIncrementEndOp : Adds c (-c.d) forIncrementEndOp := by
   unfold forIncrementEndOp
   refine adds_bind0 c (adds_get c) (fun s0 => ?_)
-  have := adds_bind c (adds_close c) (fun _ => adds_addLine0 c (.raw ("set \"" ++ currentForVar s0 ++ "=1\"")) rfl)
+  have := adds_bind c (adds_close c) (fun _ => adds_addLine0 c (.set (currentForVar s0) "1") rfl)
   simpa using this
 
 theorem adds_forEndOp : Adds c (-c.d - c.cE - c.cF) forEndOp := by
